@@ -25,6 +25,7 @@ import (
 	"github.com/tink-crypto/tink-go/v2/verifsim/catalog"
 	"github.com/tink-crypto/tink-go/v2/verifsim/classes"
 	"github.com/tink-crypto/tink-go/v2/verifsim/core"
+	"github.com/tink-crypto/tink-go/v2/verifsim/simmon"
 	"github.com/tink-crypto/tink-go/v2/verifsim/simrng"
 	"github.com/tink-crypto/tink-go/v2/verifsim/simsched"
 	"github.com/tink-crypto/tink-go/v2/verifsim/stubkm"
@@ -47,7 +48,7 @@ func TestMain(m *testing.M) {
 	}
 	core.DeclareFaults("preemption", "preemption-inside-tink-call", "task-finished-handover", "free-run-fallback")
 	core.DeclareProbes("globally-sourced-randomness(semantic oracle)", "legacy-adapter", "multi-key-keyset", "handle-reads", "construct-under-schedule",
-		"registry-lookup", "keygen-under-schedule", "accept-rejects-corrupted", "race-build")
+		"registry-lookup", "keygen-under-schedule", "accept-rejects-corrupted", "race-build", "monitored-handle", "monitoring-events-compared")
 	stubkm.Register()
 	core.Main(m, prop, "sched", map[string]string{"everything in /repo": "real (instrumented copies via -overlay: yield call before every statement, semantics unchanged)",
 		"goroutine scheduling": "stub (simsched baton, plan drawn by rapid)", "crypto/rand": "stub (simrng, one lane per task)",
@@ -121,8 +122,13 @@ func keyFor(e catalog.Entry, i int) (key.Key, error) {
 	return catalog.NewKey(e)
 }
 
-func buildHandle(es []catalog.Entry, prim int) (*keyset.Handle, error) {
+func buildHandle(es []catalog.Entry, prim int, monitored bool) (*keyset.Handle, error) {
 	m := keyset.NewManager()
+	if monitored {
+		if err := m.SetAnnotations(map[string]string{"sim": "sched"}); err != nil {
+			return nil, err
+		}
+	}
 	var ids []uint32
 	for i, e := range es {
 		k, err := keyFor(e, i)
@@ -177,19 +183,25 @@ func runSched(t *rapid.T) {
 	arenaDirtyAt = -1
 
 	// ---- the shared object
-	scenario := rapid.SampledFrom([]string{"primitive", "primitive", "primitive", "legacy-mac", "handle"}).Draw(t, "scenario")
+	scenario := rapid.SampledFrom([]string{"primitive", "primitive", "primitive", "legacy", "handle"}).Draw(t, "scenario")
 	sh := &shared{}
 	var es []catalog.Entry
+	monitored := false
+	mon := simmon.Global()
+	mon.SetLaneFunc(nil)
+	mon.Reset()
 	switch scenario {
-	case "legacy-mac":
+	case "legacy":
 		r.Probe("legacy-adapter")
-		sh.class = classes.MAC
-		h, err := stubkm.MACHandle(rapid.SampledFrom([]string{"TINK", "LEGACY", "RAW", "CRUNCHY"}).Draw(t, "stubPrefix"), 0x0a0b0c0d)
+		sh.class = rapid.SampledFrom([]string{classes.MAC, classes.AEAD, classes.DAEAD, classes.Signature, classes.Hybrid}).Draw(t, "stubClass")
+		url, _ := stubkm.ClassURL(sh.class)
+		pfx := rapid.SampledFrom([]string{"TINK", "LEGACY", "RAW", "CRUNCHY"}).Draw(t, "stubPrefix")
+		h, err := stubkm.Handle(url, bytes.Repeat([]byte{0x42}, 32), pfx, 0x0a0b0c0d)
 		if err != nil {
-			t.Fatalf("harness: stub MAC keyset: %v", err)
+			t.Fatalf("harness: stub keyset: %v", err)
 		}
 		sh.h = h
-		sh.entry = catalog.Entry{Name: "mac/stubkm/legacy-adapter", KeyType: "stubkm"}
+		sh.entry = catalog.Entry{Name: sh.class + "/stubkm/" + pfx, KeyType: "stubkm"}
 	default:
 		sh.class = rapid.SampledFrom(workClasses).Draw(t, "class")
 		nKeys := rapid.IntRange(1, 3).Draw(t, "nKeys")
@@ -201,7 +213,11 @@ func runSched(t *rapid.T) {
 		if nKeys > 1 {
 			r.Probe("multi-key-keyset")
 		}
-		h, err := buildHandle(es, prim)
+		monitored = rapid.Bool().Draw(t, "monitored")
+		if monitored {
+			r.Probe("monitored-handle")
+		}
+		h, err := buildHandle(es, prim, monitored)
 		if err != nil {
 			r.Logf("keyset refused: %v", err)
 			core.CountGlobal("keyset-refused")
@@ -262,9 +278,12 @@ func runSched(t *rapid.T) {
 
 	// ---- sequential oracle: every task alone, on its own RNG lane
 	expected := make([][]result, nTasks)
+	expectedEvents := make([][]simmon.Event, nTasks)
 	var seqYields uint64
+	mon.SetLaneFunc(func() int { return lane })
 	for i := range tasks {
 		lane = i
+		mon.Reset()
 		g.SetOffset(i, 0)
 		s1 := simsched.New(nil)
 		s1.Run([]func(){func() {
@@ -274,6 +293,7 @@ func runSched(t *rapid.T) {
 			}
 		}})
 		seqYields += s1.Yields
+		expectedEvents[i] = append([]simmon.Event{}, mon.Events[i]...)
 		if len(s1.Panics) > 0 {
 			r.Violation("C18/panic-sequential:"+sh.entry.KeyType, fmt.Sprintf("task %d panicked when run alone: %v", i, s1.Panics[0]))
 			return
@@ -325,6 +345,8 @@ func runSched(t *rapid.T) {
 		}
 	}
 	s := simsched.New(plan)
+	mon.Reset()
+	mon.SetLaneFunc(s.Current)
 	g.SetLaneFunc(s.Current)
 	s.OnPass = onPass
 	racesBefore := raceErrors()
@@ -393,6 +415,15 @@ func runSched(t *rapid.T) {
 				r.Violation("C18/result-differs:"+sh.class+"/"+sh.entry.KeyType+":"+opClass(o.name), fmt.Sprintf("task %d op %s: result under the schedule differs from the result when run alone (%s vs %s)", i, o.name, core.Hex(c.out, 24), core.Hex(e.out, 24)))
 				return
 			}
+		}
+	}
+	for i := range tasks {
+		if !sh.semantic && fmt.Sprint(mon.Events[i]) != fmt.Sprint(expectedEvents[i]) {
+			r.Violation("C18/monitoring-differs:"+sh.class+"/"+sh.entry.KeyType, fmt.Sprintf("task %d logged %v under the schedule but %v when run alone", i, mon.Events[i], expectedEvents[i]))
+			return
+		}
+		if monitored && len(mon.Events[i]) > 0 {
+			r.Probe("monitoring-events-compared")
 		}
 	}
 	if racesAfter > racesBefore {
